@@ -55,6 +55,7 @@ type Config struct {
 	Roots     []RootSpec `json:"roots"`
 	NondetCommit bool    `json:"nondet_commit,omitempty"`
 	Workers   int        `json:"workers,omitempty"`
+	HipGroups int        `json:"hip_groups,omitempty"` // >0: keys collide at the first level of the DEFAULT digester (see Callbacks.Groups)
 	AllowF4   bool       `json:"allow_known_f4,omitempty"` // replay of known finding F4 only: do not exclude it by construction
 	KeepGlobals bool     `json:"-"` // C16: globals were set once before the goroutines started
 }
@@ -174,7 +175,7 @@ func NewEngine(cfg Config, or Oracles) (*Engine, error) {
 		Cfg:      cfg,
 		Or:       or,
 		L:        NewLedger(),
-		CB:       &Callbacks{},
+		CB:       &Callbacks{Groups: cfg.HipGroups},
 		Stats:    newCaseStats(),
 		keyCache: map[uint64]MV{},
 		DebugVerify: os.Getenv("VERIF_DEBUG_VERIFY") != "",
@@ -197,6 +198,9 @@ func NewEngine(cfg Config, or Oracles) (*Engine, error) {
 	e.commitModel = e.copyRoots()
 	return e, nil
 }
+
+// co: comparison options used by the engine (value ids checked, keyed lookups with the engine's hash input).
+func (e *Engine) co() CmpOpts { return CmpOpts{CheckVID: true, Hip: e.CB.PlainHIP} }
 
 func (e *Engine) viol(format string, args ...any) error {
 	return &Violation{Step: e.step, Op: e.curOp, Msg: fmt.Sprintf(format, args...)}
@@ -693,7 +697,15 @@ func (e *Engine) mk(vd *VD, addr atree.Address, limit uint32, depth int) (atree.
 // excludeF4 reports whether creating one more nested plain map could reach known finding F4:
 // only slabs of at least 3784 bytes can hold 257 inlined maps (22 bytes each at least).
 func (e *Engine) excludeF4() bool {
-	if e.Cfg.AllowF4 || e.Cfg.Slab < 3700 {
+	// ... or, at any slab size, an external collision group (which has no size limit) must hold them
+	collisions := e.Cfg.HipGroups > 0
+	for _, r := range e.Cfg.Roots {
+		collisions = collisions || r.Dig != nil
+	}
+	for _, r := range e.Roots {
+		collisions = collisions || r.Dig != nil
+	}
+	if e.Cfg.AllowF4 || (e.Cfg.Slab < 3700 && !collisions) {
 		return false
 	}
 	e.plainMaps++
@@ -829,7 +841,7 @@ func (e *Engine) handBack2(s atree.Storable, m MV, keep bool, popped bool, what 
 	if err != nil {
 		return e.viol("%s: materialising the handed-back value failed: %v", what, err)
 	}
-	if err := cmpValue(v, m, what, CmpOpts{CheckVID: true}); err != nil {
+	if err := cmpValue(v, m, what, e.co()); err != nil {
 		return e.viol("%v", err)
 	}
 	if e.RecordResults {
